@@ -18,10 +18,10 @@ import (
 // failing print / failing call chain is placed at EVERY line (render side).
 
 type C19Case struct {
-	Kind   string   `json:"kind"`   // parse | render
-	Name   string   `json:"name"`   // file name given to the parser
-	Lines  []string `json:"lines"`  // valid template body lines (one construct per line)
-	Fault  int      `json:"fault"`  // parse: fault kind index; render: call depth
+	Kind   string   `json:"kind"`  // parse | render
+	Name   string   `json:"name"`  // file name given to the parser
+	Lines  []string `json:"lines"` // valid template body lines (one construct per line)
+	Fault  int      `json:"fault"` // parse: fault kind index; render: call depth
 	CRLF   bool     `json:"crlf,omitempty"`
 	Prefix int      `json:"prefix,omitempty"` // blank/comment lines before the namespace
 }
